@@ -310,7 +310,7 @@ class Env:
 
 
 ADAPTERS = re.compile(
-    r"^(core::option::Option::(as_ref|as_deref|as_mut|map|copied|cloned|unwrap_or_default|unwrap_or|ok_or|ok_or_else|and_then|filter|unwrap_or_else|transpose|take)"
+    r"^(core::option::Option::(as_ref|as_deref|as_mut|map|copied|cloned|unwrap_or_default|unwrap_or|ok_or|ok_or_else|and_then|filter|unwrap_or_else|transpose|take|or|or_else)"
     r"|core::result::Result::(as_ref|map|map_err|ok|and_then|unwrap_or_default|transpose)"
     r"|core::str::<impl str>::(as_bytes|as_ref|trim)|alloc::string::String::(as_str|as_bytes)"
     r"|core::clone::Clone::clone|alloc::borrow::ToOwned::to_owned|alloc::string::ToString::to_string"
@@ -321,47 +321,48 @@ ADAPTERS = re.compile(
 )
 
 
-def origins(n, env, adapters=ADAPTERS, extra=None, depth=0, seen=None):
-    """Set of root origins of the value of expression `n`:
-       ('param', name, path...) | ('call', fn) | ('lit', value) | ('def', path) | ('field', adt, name, <base origins>) | ('other', kind)
-    Field accesses are kept as path suffixes on param/local roots: ('param', 'options', 'nonce')."""
+def origins(n, env, adapters=ADAPTERS, extra=None, depth=0, seen=None, sel=()):
+    """Set of root origins of the value of expression `n` (optionally of its sub-component `sel`):
+       ('param', name, path...) | ('call', fn) | ('lit', value) | ('def', path) | ('other', kind)
+    Field accesses / destructuring paths are kept as suffixes on param/local roots: ('param', 'options', 'nonce')."""
     if seen is None:
-        seen = set()
+        seen = frozenset()
     out = set()
     n = strip(n)
-    if not isinstance(n, dict) or depth > 40:
+    if not isinstance(n, dict) or depth > 60:
         return {("other", "depth")}
     k = n.get("k")
+
+    def rec(x, sel_=sel, seen_=None):
+        return origins(x, env, adapters, extra, depth + 1, seen if seen_ is None else seen_, sel_)
+
     t = try_inner(n)
     if t is not None:
-        return origins(t, env, adapters, extra, depth + 1, seen)
+        return rec(t)
     a = await_inner(n)
     if a is not None:
-        return origins(a, env, adapters, extra, depth + 1, seen)
+        return rec(a)
     if k == "path":
         r = n.get("res", {})
         if "local" in r:
             bid = r["id"]
             if bid in env.params:
                 name, _, path = env.params[bid]
-                return {("param", name) + tuple(path)}
-            if bid in seen:
+                return {("param", name) + tuple(path) + tuple(sel)}
+            if (bid, sel) in seen:
                 return set()
-            seen = seen | {bid}
+            seen2 = seen | {(bid, sel)}
             ds = env.defs.get(bid)
             if not ds:
-                return {("local", r["local"])}
+                return {("local", r["local"]) + tuple(sel)}
             for (e, path) in ds:
-                for o in origins(e, env, adapters, extra, depth + 1, seen):
-                    out.add(o + tuple(path) if o[0] in ("param", "local", "callres") and path else o)
+                out |= rec(e, tuple(path) + tuple(sel), seen2)
             return out
         if "def" in r:
             return {("def", r["def"])}
         return {("other", "path")}
     if k == "field":
-        for o in origins(n["base"], env, adapters, extra, depth + 1, seen):
-            out.add(o + (n["name"],) if o[0] in ("param", "local", "callres") else ("fieldof",) + o + (n["name"],))
-        return out
+        return rec(n["base"], (n["name"],) + tuple(sel))
     if k == "lit":
         v = n["v"]
         for key in ("str", "int", "bool", "char", "bytes", "float"):
@@ -373,51 +374,77 @@ def origins(n, env, adapters=ADAPTERS, extra=None, depth=0, seen=None):
         nm = fn_name(n) or ""
         base = n.get("fn") or ""
         if n.get("ctor"):
+            vn = variant_name(n["ctor"])
+            if len(sel) >= 2 and sel[0] == vn and sel[1].isdigit() and int(sel[1]) < len(n["args"]):
+                return rec(n["args"][int(sel[1])], tuple(sel[2:]))
+            if len(sel) >= 1 and sel[0].isdigit() and int(sel[0]) < len(n["args"]):
+                return rec(n["args"][int(sel[0])], tuple(sel[1:]))
             # tuple-struct / variant constructor: transparent wrapper for origin purposes
             for a_ in n["args"]:
-                out |= origins(a_, env, adapters, extra, depth + 1, seen)
-            return out or {("ctor", variant_name(n["ctor"]))}
+                out |= rec(a_, ())
+            return out or {("ctor", vn)}
         if (adapters is not None and (adapters.search(base) or adapters.search(nm))) or (extra is not None and (extra.search(base) or extra.search(nm))):
             args = call_args(n)
             if args:
                 # adapters: value derives from the receiver; closures passed as arguments are ignored here
-                out |= origins(args[0], env, adapters, extra, depth + 1, seen)
+                sel2 = tuple(x for x in sel if x not in ("Some", "Ok", "0")) if sel and sel[0] in ("Some", "Ok") else sel
+                out |= rec(args[0], sel2)
                 for extra_arg in args[1:]:
                     ea = strip(extra_arg)
                     if ea.get("k") not in ("closure", "path", "lit"):
-                        out |= origins(extra_arg, env, adapters, extra, depth + 1, seen)
+                        out |= rec(extra_arg, ())
                 return out
         return {("call", nm)}
     if k == "closure_param":
-        return {("closure_param", n["closure"], n["index"])}
-    if k in ("if",):
-        out |= origins(n["then"], env, adapters, extra, depth + 1, seen)
+        return {("closure_param", n["closure"], n["index"]) + tuple(sel)}
+    if k == "if":
+        out |= rec(n["then"])
         if n.get("else") is not None:
-            out |= origins(n["else"], env, adapters, extra, depth + 1, seen)
+            out |= rec(n["else"])
         return out
     if k == "match":
         for arm in n["arms"]:
-            out |= origins(arm["body"], env, adapters, extra, depth + 1, seen)
+            if not diverges_simple(arm["body"]):
+                out |= rec(arm["body"])
         return out
     if k == "block":
         if n.get("expr") is not None:
-            return origins(n["expr"], env, adapters, extra, depth + 1, seen)
+            return rec(n["expr"])
         return {("other", "unit")}
     if k == "struct":
+        if sel:
+            for f in n["fields"]:
+                if f["name"] == sel[0]:
+                    return rec(f["e"], tuple(sel[1:]))
+            if isinstance(n.get("base"), dict):
+                return rec(n["base"])
         return {("struct", variant_name(n["res"]))}
-    if k in ("tup", "array"):
+    if k == "tup":
+        if sel and sel[0].isdigit() and int(sel[0]) < len(n["es"]):
+            return rec(n["es"][int(sel[0])], tuple(sel[1:]))
         for e in n["es"]:
-            out |= origins(e, env, adapters, extra, depth + 1, seen)
+            out |= rec(e, ())
+        return out
+    if k == "array":
+        for e in n["es"]:
+            out |= rec(e, ())
         return out
     if k == "index":
-        return origins(n["base"], env, adapters, extra, depth + 1, seen)
+        return rec(n["base"])
     if k == "binary":
         return {("binary", n["op"])}
     if k == "unary":
-        return origins(n["e"], env, adapters, extra, depth + 1, seen)
+        return rec(n["e"])
     if k == "closure":
         return {("closure", n["def"])}
+    if k in ("ret", "break", "continue"):
+        return set()
     return {("other", k)}
+
+
+def diverges_simple(n):
+    n = strip(n)
+    return isinstance(n, dict) and (n.get("k") in ("ret", "break", "continue") or (n.get("k") == "block" and diverges(n)))
 
 
 def comparisons(h, ops=("Eq", "Ne", "Lt", "Le", "Gt", "Ge")):
@@ -437,3 +464,298 @@ def find_first(h, pred):
         if pred(n):
             return n
     return None
+
+
+# =====================================================================================================
+# structural dominance on the HIR tree
+# =====================================================================================================
+def diverges(n):
+    """Does evaluating n never complete normally (all paths return/break/continue/panic)?"""
+    n = strip(n) if isinstance(n, dict) and n.get("k") in ("addrof", "cast") else n
+    if not isinstance(n, dict):
+        return False
+    k = n.get("k")
+    if k in ("ret", "break", "continue"):
+        return True
+    if k == "semi":
+        return diverges(n["e"])
+    if k == "block":
+        for s in n.get("stmts", []):
+            if diverges(s):
+                return True
+        return diverges(n["expr"]) if n.get("expr") is not None else False
+    if k == "if":
+        return n.get("else") is not None and diverges(n["then"]) and diverges(n["else"])
+    if k == "match":
+        if n.get("src") in ("try", "await"):
+            return False
+        return bool(n["arms"]) and all(diverges(a["body"]) for a in n["arms"])
+    if k in ("call", "mcall"):
+        nm = fn_name(n) or ""
+        if re.search(r"(core::panicking::|std::rt::begin_panic|core::option::unwrap_failed|core::result::unwrap_failed|::unreachable_display|process::exit)", nm):
+            return True
+        return False
+    if k == "let":
+        return n.get("init") is not None and diverges(n["init"])
+    return False
+
+
+class Tree:
+    """Parent links + structural dominance queries for one body."""
+
+    def __init__(self, h):
+        self.h = h
+        self.root = root(h)
+        self.parent = {}   # id(node) -> (parent node, role, index)
+        self._link(self.root)
+
+    def _link(self, n):
+        stack = [n]
+        while stack:
+            x = stack.pop()
+            for role, idx, c in self._kids(x):
+                self.parent[id(c)] = (x, role, idx)
+                stack.append(c)
+
+    @staticmethod
+    def _kids(n):
+        out = []
+        if not isinstance(n, dict):
+            return out
+        for k in SINGLE_KEYS:
+            v = n.get(k)
+            if isinstance(v, dict) and "k" in v:
+                out.append((k, 0, v))
+        for k in ("args", "es", "stmts"):
+            v = n.get(k)
+            if isinstance(v, list):
+                for i, x in enumerate(v):
+                    if isinstance(x, dict) and "k" in x:
+                        out.append((k, i, x))
+        if isinstance(n.get("arms"), list):
+            for i, a in enumerate(n["arms"]):
+                if isinstance(a.get("guard"), dict):
+                    out.append(("arm_guard", i, a["guard"]))
+                out.append(("arm_body", i, a["body"]))
+        if n.get("k") == "struct":
+            for i, f in enumerate(n.get("fields", [])):
+                out.append(("field_init", i, f["e"]))
+        return out
+
+    def ancestors(self, n):
+        out = []
+        cur = n
+        while id(cur) in self.parent:
+            p, role, idx = self.parent[id(cur)]
+            out.append((p, role, idx, cur))
+            cur = p
+        return out
+
+    def preceding(self, n):
+        """Nodes certainly evaluated (to normal completion) before `n` starts, in evaluation order (innermost last).
+        Conservative: earlier siblings in enclosing blocks, scrutinees/conditions of enclosing match/if, earlier call args.
+        Stops at closure boundaries (a closure body may run later or never)."""
+        pre = []
+        for p, role, idx, child in self.ancestors(n):
+            k = p.get("k")
+            if k == "closure":
+                break
+            if k == "block" and role == "stmts":
+                pre = p["stmts"][:idx] + pre
+            elif k == "block" and role == "expr":
+                pre = p["stmts"] + pre
+            elif k == "if" and role in ("then", "else"):
+                pre = [p["cond"]] + pre
+            elif k == "match" and role in ("arm_body", "arm_guard"):
+                pre = [p["scrut"]] + pre
+            elif k in ("call",) and role == "args":
+                pre = p["args"][:idx] + pre
+            elif k == "mcall" and role == "args":
+                pre = [p["recv"]] + p["args"][:idx] + pre
+            elif k == "loop":
+                pass
+        return pre
+
+    def path_conditions(self, n):
+        """[(kind, node, detail)] conditions that hold when n is evaluated, from enclosing if/match:
+        ('if', cond, True/False) | ('arm', match_node, arm_index)"""
+        out = []
+        for p, role, idx, child in self.ancestors(n):
+            k = p.get("k")
+            if k == "closure":
+                out.append(("closure", p, None))
+            if k == "if" and role == "then":
+                out.append(("if", p["cond"], True))
+            elif k == "if" and role == "else":
+                out.append(("if", p["cond"], False))
+            elif k == "match" and role == "arm_body":
+                out.append(("arm", p, idx))
+            elif k == "loop":
+                out.append(("loop", p, None))
+        # diverging `if cond { return .. }` statements earlier in enclosing blocks: cond is false afterwards
+        for s in self.preceding(n):
+            s2 = s["e"] if s.get("k") == "semi" else s
+            if s2.get("k") == "if" and s2.get("else") is None and diverges(s2["then"]):
+                out.append(("if", s2["cond"], False))
+            elif s2.get("k") == "if" and s2.get("else") is not None and diverges(s2["then"]) and not diverges(s2["else"]):
+                out.append(("if", s2["cond"], False))
+            elif s2.get("k") == "if" and s2.get("else") is not None and diverges(s2["else"]) and not diverges(s2["then"]):
+                out.append(("if", s2["cond"], True))
+            elif s2.get("k") == "let" and s2.get("els") is not None:
+                out.append(("letelse", s2, True))
+        return out
+
+    def in_loop(self, n):
+        return any(p.get("k") == "loop" for p, _, _, _ in self.ancestors(n))
+
+    def enclosing_closure(self, n):
+        for p, _, _, _ in self.ancestors(n):
+            if p.get("k") == "closure":
+                return p
+        return None
+
+
+def unconditional(n):
+    """Sub-expressions of n that are certainly evaluated when n completes normally
+    (does not descend into closures, if-branches, non-try match arms, loops, `&&`/`||` right operands)."""
+    out = []
+    stack = [n]
+    while stack:
+        x = stack.pop()
+        if not isinstance(x, dict):
+            continue
+        out.append(x)
+        k = x.get("k")
+        if k == "closure" or k == "loop":
+            continue
+        if k == "if":
+            stack.append(x["cond"])
+            continue
+        if k == "match":
+            stack.append(x["scrut"])
+            if x.get("src") in ("try", "await"):
+                pass
+            continue
+        if k == "binary" and x.get("op") in ("And", "Or"):
+            stack.append(x["l"])
+            continue
+        for c in children(x):
+            stack.append(c)
+    return out
+
+
+def tried_calls(stmts):
+    """Calls whose `?` success is guaranteed once all of `stmts` completed: [(call node)]"""
+    out = []
+    for s in stmts:
+        for x in unconditional(s):
+            if x.get("k") == "match" and x.get("src") == "try":
+                inner = x["scrut"]["args"][0] if x["scrut"].get("args") else None
+                # peel adapters (map_err, ok_or, await) to find the producing call
+                cur = inner
+                for _ in range(12):
+                    cur = strip(cur)
+                    aw = await_inner(cur)
+                    if aw is not None:
+                        cur = aw
+                        continue
+                    if isinstance(cur, dict) and cur.get("k") in ("call", "mcall"):
+                        nm = fn_name(cur) or ""
+                        if ADAPTERS.search(cur.get("fn") or "") or re.search(r"(Result|Option)::(map_err|ok_or|ok_or_else|map|and_then)$", nm):
+                            out.append(cur)
+                            args = call_args(cur)
+                            cur = args[0] if args else None
+                            continue
+                        out.append(cur)
+                    break
+    return out
+
+
+def conjuncts(c):
+    """Split `a && b && c` into [a, b, c]; `!x` is kept as a node."""
+    c = strip(c)
+    if isinstance(c, dict) and c.get("k") == "binary" and c.get("op") == "And":
+        return conjuncts(c["l"]) + conjuncts(c["r"])
+    return [c]
+
+
+def disjuncts(c):
+    c = strip(c)
+    if isinstance(c, dict) and c.get("k") == "binary" and c.get("op") == "Or":
+        return disjuncts(c["l"]) + disjuncts(c["r"])
+    return [c]
+
+
+def negated(c):
+    """(inner, True) when c is `!inner`"""
+    c = strip(c)
+    if isinstance(c, dict) and c.get("k") == "unary" and c.get("op") == "Not":
+        return c["e"], True
+    return c, False
+
+
+def called_fns(n, include_closures=True):
+    """Set of callee names under n."""
+    out = set()
+    for x in walk(n):
+        if x.get("k") in ("call", "mcall", "binary") and fn_name(x):
+            out.add(fn_name(x))
+            if x.get("fn"):
+                out.add(x["fn"])
+        if x.get("k") == "path" and x.get("res", {}).get("dk") in ("Fn", "AssocFn"):
+            out.add(x["res"]["def"])
+    return out
+
+
+def literals(n):
+    out = []
+    for x in walk(n):
+        if x.get("k") == "lit":
+            v = x["v"]
+            for key in ("str", "int", "bool", "char"):
+                if key in v:
+                    out.append(v[key])
+    return out
+
+
+def exits(h):
+    """All value-producing exits of a fn body: explicit `return e` nodes plus the tail expression(s).
+    Returns [(node, outcome_str)] where node is the returned expression."""
+    r = root(h)
+    out = []
+
+    def tails(n):
+        n0 = n
+        n = strip(n) if isinstance(n, dict) and n.get("k") in ("addrof",) else n
+        if not isinstance(n, dict):
+            return
+        k = n.get("k")
+        if k == "block":
+            if n.get("expr") is not None:
+                tails(n["expr"])
+            return
+        if k == "if":
+            tails(n["then"])
+            if n.get("else") is not None:
+                tails(n["else"])
+            return
+        if k == "match" and n.get("src") not in ("try", "await"):
+            for a in n["arms"]:
+                tails(a["body"])
+            return
+        if k == "closure" and n.get("ckind", "").startswith("Coroutine"):
+            tails(n["body"])
+            return
+        if k in ("ret", "break", "continue"):
+            return
+        out.append(n0)
+
+    tails(r)
+    for x in walk(r):
+        if x.get("k") == "ret" and x.get("e") is not None:
+            # skip the desugared `?` returns
+            if x.get("exp") and strip(x["e"]).get("k") == "call" and "from_residual" in (strip(x["e"]).get("fn") or ""):
+                continue
+            enc_closure = False
+            out.append(x["e"])
+    return [(n, outcome(n)) for n in out]
